@@ -32,8 +32,52 @@ def run(pid, tier, seed, replay):
         vlib.run([drv, "replay", replay, out], timeout=600)
     else:
         vlib.run([drv, "gen", mode, str(nq if tier == "quick" else nt), str(seed), out], timeout=6000)
+    mc_states = mc_gen = 0
+    if pid == "C15" and not replay:
+        # the implementation-shaped model of the change cache: all histories of <= 4 operations over two machine ids,
+        # ShadowEqualsLive after every report; the pre-repair shape is a negative control that TLC must refute
+        import concurrent.futures as cf
+        import random
+        for cfg, hold in (("MC_SioCrew.cfg", True), ("MC_SioCrew_negctl.cfg", False)):
+            d = vlib.fresh_dir(pid, "mc_" + cfg[:-4])
+            r = vlib.tlc(d, "MC_SioCrew.tla", cfg, workers=8, timeout=1800, heap="6g")
+            mc_states += r["distinct"]
+            mc_gen += r["generated"]
+            if hold != bool(r["ok"]):
+                raise vlib.CannotRun("SioCrew.tla / %s: expected %s\n%s" % (cfg, "no error" if hold else "a refutation", r["out"][-1500:]))
+        d = vlib.fresh_dir(pid, "mc_export")
+        r = vlib.tlc_ok(d, "MC_SioCrew.tla", "MC_SioCrew_export3.cfg" if tier == "quick" else "MC_SioCrew_export.cfg", workers=1, timeout=3000, heap="8g")
+        mc_states += r["distinct"]
+        mc_gen += r["generated"]
+        hl = open(os.path.join(d, "histories.ndjson")).read().splitlines()
+        nall = len(hl)
+        cap = 4000 if tier == "quick" else 40000
+        if len(hl) > cap:
+            hl = random.Random(seed).sample(hl, cap)
+        log("  SioCrew.tla: ShadowEqualsLive holds on all histories <= 4 ops over 2 ids (negative control refuted); %d histories exported, %d replayed" % (nall, len(hl)))
+
+        def hshard(i):
+            part = hl[i::16]
+            inp = os.path.join(wd, "hu_in_%02d.ndjson" % i)
+            open(inp, "w").write("\n".join(part) + "\n")
+            o = os.path.join(wd, "hu_out_%02d.ndjson" % i)
+            vlib.run([drv, "univ", inp, o], timeout=6000)
+            return o
+        with cf.ThreadPoolExecutor(max_workers=16) as ex:
+            houts = list(ex.map(hshard, range(16)))
+        # append to the generated histories (ids renumbered)
+        k = sum(1 for _ in open(out))
+        with open(out, "a") as f:
+            for o in houts:
+                for line in open(o):
+                    k += 1
+                    c = json.loads(line)
+                    c["id"] = k
+                    f.write(json.dumps(c) + "\n")
     jd = vlib.fresh_dir(pid, "judge")
     bad, stats, t = vlib.judge_cases(jd, "Trace_Crew.tla", "Trace_Crew.cfg", out)
+    t["distinct"] += mc_states
+    t["generated"] += mc_gen
     for b in bad:
         if b.get(key):
             c = b["case"]
